@@ -118,7 +118,10 @@ func call(d time.Duration, f func() error) (err error, timedOut bool) {
 
 // closeBounded closes a DB on a path where a violation (or the end of a scenario) is already decided: the
 // result of Close does not matter there and a Close that blocks must not keep the harness from reporting.
-func closeBounded(db *leveldb.DB) { call(3*time.Second, func() error { return db.Close() }) }
+func closeBounded(db *leveldb.DB) {
+	call(3*time.Second, func() error { return db.Close() })
+	leveldb.VerifForgetDB(db)
+}
 
 // checkContents reads every marker and key and compares with the in-order application of the batches whose
 // marker is present; all acknowledged batches must be present. readErrOK: read errors are tolerated (faults active).
@@ -388,6 +391,7 @@ func runScenario(sc *Scenario) (out outcome) {
 				out.hung = "Close did not return"
 				return
 			}
+			leveldb.VerifForgetDB(db)
 			reopens = append(reopens, stor.OpCount())
 			db, err = leveldb.Open(stor, o)
 			if err != nil {
@@ -470,6 +474,7 @@ func runScenario(sc *Scenario) (out outcome) {
 		out.hung = "final Close did not return"
 		return
 	}
+	leveldb.VerifForgetDB(db)
 	opsBeforeReopen := stor.Ops()
 	var db2 *leveldb.DB
 	err, to = call(60*time.Second, func() error { var e error; db2, e = leveldb.Open(stor, o); return e })
